@@ -38,4 +38,9 @@ def families(tier):
     add("fan_out", D["fan_out"], 3, 5)
     add("ring2_dfix_scale_dfix", R["ring2_dfix_scale_dfix"], 3, 4, delay_sum_ge_steps=True)
     add("ring3_dfix", R["ring3_dfix"], 0, 4, delay_sum_ge_steps=True)
+    for name, uq, ut in (("finisher_alone", 3, 5), ("finisher_feeds_dpush", 4, 6)):
+        u = uq if q else ut
+        f = sched.run_family("C03", name, topos.FINISHING[name], u)
+        f["must_cover"] = ["outcome:ok", "finished-early"]
+        fams.append(f)
     return fams
